@@ -14,6 +14,12 @@ import (
 func VerifC11_PosHandlers() {
 	e, _, _ := vPrepare(6)
 	e.Fund(e.Addrs[2], sdk.NewInt(3000000))
+	if zz.Choice("non_default_stake_denom", 2) == 1 {
+		// governance made another denomination the staking token: the accounts hold none of it
+		p := e.K.GetParams(e.Ctx)
+		p.StakeDenom = "ustake"
+		e.K.SetParams(e.Ctx, p)
+	}
 	var msg sdk.Msg
 	switch zz.Choice("msg", 5) {
 	case 0:
